@@ -598,7 +598,7 @@ def install_patches():
 
     # Injected delay at an existing suspension point of the director: the hand-off of hash
     # computations to a thread (before a command, after it, and for file hash jobs).
-    # `cfg["thread_delay"] = {"p": probability, "max": seconds, "seed": n}` makes that thread
+    # `cfg["thread_delay"] = {"p": probability, "max": seconds, "seed": n[, "min": seconds]}` makes that thread
     # slow to start, as it is for a large file or a busy machine, which widens the windows
     # between a dispatch and `reset_for_rerun`, and between the end of a command and the
     # transaction that records it.
@@ -609,10 +609,10 @@ def install_patches():
     async def run_in_thread(self):
         build = _CURRENT["build"]
         if build is not None and build.thread_delay is not None:
-            rng, p, dmax = build.thread_delay
+            rng, p, dmax, dmin = build.thread_delay
             if rng.random() < p:
                 build.thread_delays += 1
-                await asyncio.sleep(rng.random() * dmax)
+                await asyncio.sleep(dmin + rng.random() * (dmax - dmin))
         return await orig_run_in_thread(self)
 
     run_mod.ThreadWorker.run_in_thread = run_in_thread
@@ -678,7 +678,8 @@ def run_build(cfg=None, ctl=None, monitors=(), driver=None, env=None, timeout=60
         build.db_delay = (random.Random(dd.get("seed", 0)), dd.get("p", 0.2), dd.get("max", 0.003))
     td = cfg.get("thread_delay")
     if td:
-        build.thread_delay = (random.Random(td.get("seed", 0)), td.get("p", 0.5), td.get("max", 0.02))
+        build.thread_delay = (random.Random(td.get("seed", 0)), td.get("p", 0.5), td.get("max", 0.02),
+                              td.get("min", 0.0))
     _CURRENT["build"] = build
     os.makedirs(".stepup", exist_ok=True)
     sockdir = tempfile.mkdtemp(prefix="vs", dir=os.environ.get("VERIF_SCRATCH", "/tmp"))
